@@ -236,3 +236,51 @@ func (vc *VC) nameElemArrays(body string) string {
 	}
 	return body
 }
+
+// selectTriggers returns the distinct subterms `(select X bv)` whose index is the bare bound
+// variable (candidates for explicit triggers of re-indexed slice reads)
+func selectTriggers(body, bv string) []string {
+	var out []string
+	seen := map[string]bool{}
+	suffix := " " + bv + ")"
+	for i := 0; i+8 <= len(body); i++ {
+		if !strings.HasPrefix(body[i:], "(select ") {
+			continue
+		}
+		depth, j, bar := 0, i, false
+		for ; j < len(body); j++ {
+			c := body[j]
+			if c == '|' {
+				bar = !bar
+			}
+			if bar {
+				continue
+			}
+			if c == '(' {
+				depth++
+			} else if c == ')' {
+				depth--
+				if depth == 0 {
+					break
+				}
+			}
+		}
+		if j >= len(body) {
+			continue
+		}
+		t := body[i : j+1]
+		if !strings.HasSuffix(t, suffix) || seen[t] {
+			continue
+		}
+		// the array part must not mention a bound variable
+		if hasBound(t[:len(t)-len(suffix)]) {
+			continue
+		}
+		seen[t] = true
+		out = append(out, t)
+		if len(out) >= 3 {
+			break
+		}
+	}
+	return out
+}
